@@ -38,6 +38,10 @@ pub struct GroupMode {
     /// with ENOSPC / EIO
     #[serde(default)]
     pub tmp_fault: Option<(u8, bool)>,
+    /// 0 nothing special; 1 TMPDIR is unusable (it lies below a regular file); 2 an additional scanned
+    /// root lives directly in TMPDIR, is named `fclones-data` and has not been touched for years
+    #[serde(default)]
+    pub tmp_mode: u8,
 }
 
 #[derive(Clone, Debug, Serialize, Deserialize)]
@@ -75,8 +79,9 @@ fn group_strategy() -> BoxedStrategy<C07Case> {
                 prop_oneof![5 => Just(0u8), 1 => Just(1u8), 1 => Just(2u8), 2 => Just(3u8)],
                 prop::bool::weighted(0.35),
                 prop::option::weighted(0.25, (1u8..8, any::<bool>())),
+                prop_oneof![8 => Just(0u8), 1 => Just(1u8), 1 => Just(2u8)],
             )
-                .prop_map(move |(tree, prog, mut io, mut no_copy, cache, output_file, links, threads, env_mode, cwd_in_root, tmp_fault)| {
+                .prop_map(move |(tree, prog, mut io, mut no_copy, cache, output_file, links, threads, env_mode, cwd_in_root, tmp_fault, tmp_mode)| {
                     if prog == Some(6) {
                         // the scribbling helper needs a file name and must only ever get a private copy
                         no_copy = false;
@@ -84,7 +89,7 @@ fn group_strategy() -> BoxedStrategy<C07Case> {
                             io = 4;
                         }
                     }
-                    C07Case::Group(GroupMode { tree, roots, prog, io, no_copy, cache, output_file, links, threads, env_mode, cwd_in_root, tmp_fault })
+                    C07Case::Group(GroupMode { tree, roots, prog, io, no_copy, cache, output_file, links, threads, env_mode, cwd_in_root, tmp_fault, tmp_mode })
                 })
         })
         .boxed()
@@ -153,7 +158,7 @@ fn mutating_calls_in_tree(log: &str, tree: &str) -> Vec<String> {
 
 fn leftovers(tmp: &std::path::Path) -> Vec<String> {
     std::fs::read_dir(tmp)
-        .map(|rd| rd.filter_map(|e| e.ok()).map(|e| e.file_name().to_string_lossy().to_string()).filter(|n| n.starts_with("fclones")).collect())
+        .map(|rd| rd.filter_map(|e| e.ok()).map(|e| e.file_name().to_string_lossy().to_string()).filter(|n| n.starts_with("fclones") && n != "fclones-data").collect())
         .unwrap_or_default()
 }
 
@@ -234,6 +239,31 @@ fn run_group_mode(g: &GroupMode, n: u64) -> Verdict {
     if g.env_mode % 4 != 0 {
         sig.push(format!("cache-env-{}", g.env_mode % 4));
     }
+    let mut extra_root: Option<std::path::PathBuf> = None;
+    match g.tmp_mode % 3 {
+        1 => {
+            let f = cd.base.join("home").join("not-a-dir");
+            let _ = std::fs::write(&f, b"x");
+            run = run.env("TMPDIR", f.join("tmp"));
+            sig.push("tmpdir-unusable".into());
+        }
+        2 => {
+            // a copy of the first root, directly in TMPDIR, named like fclones' own temporary directories
+            let dst = cd.tmp().join("fclones-data");
+            let ok = std::process::Command::new("cp").arg("-a").arg(tree.join(ROOT_NAMES[0])).arg(&dst).status().map(|s| s.success()).unwrap_or(false);
+            if ok {
+                set_times(&dst, BASE_TIME, 0, BASE_TIME);
+                args.push(dst.clone().into_os_string());
+                extra_root = Some(dst);
+                sig.push("scanned-root-inside-tmpdir".into());
+            }
+        }
+        _ => {}
+    }
+    let before = match &extra_root {
+        Some(x) => Snapshot::take(&[&tree, x]),
+        None => before,
+    };
     let mut run = with_shim(run.args(&args), &cd);
     // (only in the modes without a $OUT pipe: a failed mkfifo / open of the pipe makes fclones wait for
     // a writer that never comes, which no listed property forbids but which costs a watchdog period)
@@ -249,10 +279,16 @@ fn run_group_mode(g: &GroupMode, n: u64) -> Verdict {
     if tmp_fault.is_some() {
         // fclones may give up on a file, but whatever it leaves in TMPDIR after a failed call is its own
         // business only as far as the statement goes: "gone afterwards" is asserted for fault-free runs
-        let _ = std::fs::remove_dir_all(cd.tmp());
-        let _ = std::fs::create_dir_all(cd.tmp());
+        if let Ok(rd) = std::fs::read_dir(cd.tmp()) {
+            for e in rd.filter_map(|e| e.ok()) {
+                if e.file_name() != "fclones-data" {
+                    let p = e.path();
+                    let _ = if p.is_dir() { std::fs::remove_dir_all(&p) } else { std::fs::remove_file(&p) };
+                }
+            }
+        }
     }
-    finish_case(&cd, &before, &out, &cmdline, sig, g.prog.is_some() && g.io % 5 != 0)
+    finish_case_with(&cd, &before, &out, &cmdline, sig, g.prog.is_some() && g.io % 5 != 0, extra_root.as_deref())
 }
 
 fn run_dry(d: &DCase, output_file: bool, n: u64) -> Verdict {
@@ -292,6 +328,10 @@ fn run_dry(d: &DCase, output_file: bool, n: u64) -> Verdict {
 }
 
 fn finish_case(cd: &CaseDir, before: &Snapshot, out: &Out, cmdline: &str, sig: Vec<String>, nontrivial: bool) -> Verdict {
+    finish_case_with(cd, before, out, cmdline, sig, nontrivial, None)
+}
+
+fn finish_case_with(cd: &CaseDir, before: &Snapshot, out: &Out, cmdline: &str, sig: Vec<String>, nontrivial: bool, extra_root: Option<&std::path::Path>) -> Verdict {
     let tree = cd.tree();
     let fail = |clause: &str, detail: String| Verdict::Fail { clause: clause.into(), detail: format!("{}\n{}\n{}", cmdline, detail, out.brief()), sig: sig.clone() };
     if out.timed_out {
@@ -300,7 +340,10 @@ fn finish_case(cd: &CaseDir, before: &Snapshot, out: &Out, cmdline: &str, sig: V
     if out.crashed() {
         return fail("crash", String::new());
     }
-    let after = Snapshot::take(&[&tree]);
+    let after = match extra_root {
+        Some(x) => Snapshot::take(&[&tree, &x.to_path_buf()]),
+        None => Snapshot::take(&[&tree]),
+    };
     let d = diff(before, &after, true);
     if !d.is_empty() {
         return fail("tree-modified", d.describe());
@@ -341,7 +384,7 @@ pub fn check(tier: Tier) -> i32 {
     cleanup_process_scratch();
     ctx.finish(
         "exploration",
-        "proptest-generated trees (hostile names, hard links, symlinks) x `group` with every transform I/O mode (pipe, $IN, $OUT, $IN+$OUT, --in-place with $IN) x --no-copy x helper programs that read all / part / none of their input, fail before or after reading, or never open $OUT (one helper rewrites the file it is given as $IN - only generated without --no-copy, where that file is fclones' private copy) x a failing mutating call below TMPDIR (ENOSPC / EIO on the k-th, k = 1..7, in a quarter of the cases) x --cache x -o outside the tree x -S/-L/-H x XDG_CACHE_HOME private / unset / empty / relative x working directory outside or inside the scanned tree; and all five dedupe operations with --dry-run, arbitrary options and -o. Oracle: (1) strict inventory equality before/after (paths, types, bytes, inode numbers, link counts, symlink targets, mtimes, modes); (2) the LD_PRELOAD trace of fclones and all its children contains no mutating libc call (open for write/create, write, rename, link, symlink, unlink, mkdir, mkfifo, truncate, utimes, chmod, clone ioctl) on a path below the scanned tree; (3) no fclones-* entry remains in the private TMPDIR. Non-trivial = a transform mode other than the plain pipe, or a dry run whose script is non-empty.",
+        "proptest-generated trees (hostile names, hard links, symlinks) x `group` with every transform I/O mode (pipe, $IN, $OUT, $IN+$OUT, --in-place with $IN) x --no-copy x helper programs that read all / part / none of their input, fail before or after reading, or never open $OUT (one helper rewrites the file it is given as $IN - only generated without --no-copy, where that file is fclones' private copy) x a failing mutating call below TMPDIR (ENOSPC / EIO on the k-th, k = 1..7, in a quarter of the cases) x TMPDIR unusable (below a regular file) or holding an additional scanned root named `fclones-data` that has been idle for years x --cache x -o outside the tree x -S/-L/-H x XDG_CACHE_HOME private / unset / empty / relative x working directory outside or inside the scanned tree; and all five dedupe operations with --dry-run, arbitrary options and -o. Oracle: (1) strict inventory equality before/after (paths, types, bytes, inode numbers, link counts, symlink targets, mtimes, modes); (2) the LD_PRELOAD trace of fclones and all its children contains no mutating libc call (open for write/create, write, rename, link, symlink, unlink, mkdir, mkfifo, truncate, utimes, chmod, clone ioctl) on a path below the scanned tree; (3) no fclones-* entry remains in the private TMPDIR. Non-trivial = a transform mode other than the plain pipe, or a dry run whose script is non-empty.",
         &["mutations are observed at libc level (the binary imports all file operations dynamically)", "only the scribbling helper writes to $IN, and only without --no-copy, so any change of a scanned file is fclones' own"],
     )
 }
